@@ -139,4 +139,37 @@ theorem diffVar_correct (betas row : List ℝ) (xi : String → ℝ) (j : ℕ) (
   | mul a b iha ihb => exact iha.mul ihb
   | exp a iha => exact iha.exp
 
+/-- a finite sum of differentiable terms (list form) -/
+theorem hasDerivAt_list_sum {ι : Type} (l : List ι) (f : ι → ℝ → ℝ) (f' : ι → ℝ) (t : ℝ)
+    (h : ∀ i ∈ l, HasDerivAt (f i) (f' i) t) :
+    HasDerivAt (fun s => (l.map fun i => f i s).sum) (l.map f').sum t := by
+  induction l with
+  | nil => simpa using hasDerivAt_const t (0 : ℝ)
+  | cons a as ih =>
+    simp only [List.map_cons, List.sum_cons]
+    exact (h a (by simp)).add (ih fun i hi => h i (by simp [hi]))
+
+/-- **the derivative of a simulated quantity w.r.t. a data column is the simulated derivative**:
+`Derive(MonteCarlo(e), x)` and `MonteCarlo(Derive(e, x))` both denote it -/
+theorem monteCarlo_diffVar (names : List String) (table : List (List (List ℝ))) (betas row : List ℝ)
+    (n R j : ℕ) (hj : j < row.length) (e : IExpr) (t : ℝ) :
+    HasDerivAt (fun t => monteCarlo names table betas (row.set j t) n R e)
+      (monteCarlo names table betas (row.set j t) n R (diffVar j e)) t := by
+  simp only [monteCarlo_real]
+  exact (hasDerivAt_list_sum (List.range R)
+    (fun r s => evalI betas (row.set j s) (fun name => entry 0 table n r (drawId names name)) e)
+    (fun r => evalI betas (row.set j t) (fun name => entry 0 table n r (drawId names name)) (diffVar j e))
+    t (fun r _ => diffVar_correct betas row _ j hj e t)).div_const (R : ℝ)
+
+/-- the same w.r.t. a parameter -/
+theorem monteCarlo_diffBeta (names : List String) (table : List (List (List ℝ))) (betas row : List ℝ)
+    (n R i : ℕ) (hi : i < betas.length) (e : IExpr) (t : ℝ) :
+    HasDerivAt (fun t => monteCarlo names table (betas.set i t) row n R e)
+      (monteCarlo names table (betas.set i t) row n R (diffBeta i e)) t := by
+  simp only [monteCarlo_real]
+  exact (hasDerivAt_list_sum (List.range R)
+    (fun r s => evalI (betas.set i s) row (fun name => entry 0 table n r (drawId names name)) e)
+    (fun r => evalI (betas.set i t) row (fun name => entry 0 table n r (drawId names name)) (diffBeta i e))
+    t (fun r _ => diffBeta_correct betas row _ i hi e t)).div_const (R : ℝ)
+
 end Integrals
